@@ -289,7 +289,9 @@ class EventMixin (object):
 
     # Create a copy so that it can be modified freely during event
     # processing.  It might make sense to change this.
-    handlers = self._eventMixin_handlers.get(eventType, [])
+    # Iterate over a snapshot: a handler may subscribe (which appends to and
+    # possibly re-sorts this very list) or unsubscribe during delivery.
+    handlers = list(self._eventMixin_handlers.get(eventType, []))
     for (priority, handler, once, eid) in handlers:
       if classCall:
         rv = event._invoke(handler, *args, **kw)
